@@ -27,7 +27,7 @@ def run(ctx):
         ctx.violation({"what": "the built-in definitions of SchemaBuilder::new() no longer satisfy bi_b0_ok (empty schema "
                                "definition, built-in flags, distinct names, no extension components): the hypothesis of "
                                "C12_rebuild does not hold for the real initial state", "observed": b0ok}, no_input=True)
-    n = 1200 if ctx.tier == "quick" else 20000
+    n = 4000 if ctx.tier == "quick" else 20000
     cases = [("corpus:" + name, cfg, text) for name, text in corpus_texts("C12") for cfg in ("-", "a")]
     for fl, cfg, items in gen_histories(ctx, n):
         cases.append((fl, cfg, sch_gen.text_of(items)))
